@@ -215,7 +215,7 @@ func TestVerif_C53(t *testing.T) {
 	defer recs.Close()
 	rnd := kit.Rand(53)
 	names := []string{"a", "a.b", "a-b", "ab", "b", "B"}
-	nBase := kit.Pick(14, 220)
+	nBase := kit.Pick(14, 110)
 	perBase := kit.Pick(14, 22)
 	serial := 0
 	for bi := 0; bi < nBase; bi++ {
